@@ -599,7 +599,8 @@ def check(run):
                 batch = [scenario(json.loads(json.loads(ln)), "exhaustive:" + c, must_be_exact=True)
                          for ln in lines[b0:b0 + BATCH]]
                 def tool_side(rp, batch=batch, c=c, b0=b0):
-                    pick = [sc for sc in batch if (thorough and len(sc["arr"]) <= 3) or rng.random() < rate]
+                    pick = [sc for sc in batch
+                            if (thorough and not c.endswith("_b") and len(sc["arr"]) <= 3) or rng.random() < rate]
                     if pick:
                         d10["short_histories"] += len(pick)
                         process_decode1090(run, pick, jobs, procs, d10, f"{c}.{b0 // BATCH}")
@@ -648,7 +649,7 @@ def check(run):
                            "only the final output order is observable, judged by PropShape/PropConservation/"
                            "PropWindowAtExit/PropMono",
                            selection="all long/burst/attack histories; short histories: seeded sample (quick), all of "
-                                     "length <= 3 plus a seeded sample (thorough)"),
+                                     "length <= 3 of families a and c plus a seeded sample (thorough)"),
         "exhaustive": False,
         "exhaustive_parts": "spec: all histories <= the MC bounds with all tie orders and an optional flush at close; "
                             "code: all histories of Gen_Dedup_*.cfg (receiver pattern fixed beyond the FullRx bound)",
